@@ -74,6 +74,14 @@ def r081_082(ctx):
         ctx.require(need in post, f"anchor vanished: store of {need}")
     bi = post["best_iter_"].data["value"]
     bg, w = post["best_gap_"].data["value"], post["weights_"].data["value"]
+    # best_gap_ read as the last entry of the filtered series whose last index is best_iter_: X.iloc[-1] with best_iter_ = X.index[-1]
+    # and X = S[mask], S = pd.Series(gaps) (default index, so S[i] is gaps[i])
+    if bg.op == "sub" and bg.args[0].op == "attr" and bg.args[0].args[1] == "iloc" and bg.args[1] is const(-1) and bi.op == "sub" \
+            and bi.args[1] is const(-1) and bi.args[0].op == "attr" and bi.args[0].args[1] == "index" and bi.args[0].args[0] is bg.args[0].args[0]:
+        X_ = bg.args[0].args[0]
+        S_ = X_.args[0] if X_.op == "sub" else None
+        if S_ is not None and S_.op == "call" and S_.args[0] is glob("pandas.Series") and len(S_.args[1]) == 1 and not S_.args[2]:
+            bg = mk("sub", S_.args[1][0], bi)
     ok_idx = bg.op == "sub" and w.op == "sub" and bg.args[1] is bi and w.args[1] is bi
     ctx.ob("R08.1", fq, post["best_gap_"].node, ok_idx, "best_gap_ and weights_ are read at the same index best_iter_",
            construct="same best index")
@@ -201,7 +209,10 @@ def r081_082(ctx):
         hs_index = A.at(post["weights_"], "self._hs.index") if "_hs" in post else None
         okp = (e.data["key"] is lev.data["elem"] and hs_index is not None and A.eq(lev.data["iter"], A.at(e, "self._hs.index"))
                and _peel(e.data["obj"])[1] in (None, "at", "loc")
-               and any(A.C.canon(l) is A.C.canon(A.at(e, "K not in W.index", {"K": lev.data["elem"], "W": _peel(e.data["obj"])[0]}))
+               and any(A.C.canon(l) is A.C.canon(A.at(e, "K not in W.index", {"K": lev.data["elem"], "W": W_}))
+                       # membership in the table as it grows, or as it was before the padding (the ids of _hs.index are distinct, so
+                       # an id added by the padding is not met again)
+                       for W_ in (_peel(e.data["obj"])[0], root_of(_peel(e.data["obj"])[0]) if _peel(e.data["obj"])[0].op == "loopvar" else _peel(e.data["obj"])[0])
                        for l in pc_literals(e.pc)))
     ctx.ob("R08.4", fq, pads[0].node if pads else None, okp, "every predictor id missing from the selected Q gets weight 0.0",
            construct="weight padding")
